@@ -9,6 +9,7 @@ import I18n.Props.C20
 import I18n.Lemmas.HdrClean
 import I18n.Lemmas.HdrNames
 import I18n.Lemmas.HdrScan
+import I18n.Lemmas.HdrOnce
 /-
 # C15 — header diagnostics match the documented conditions
 
@@ -387,6 +388,16 @@ theorem mo_exemptions (now : Int) (f : File) (fs : List (Str × Str)) :
     rw [e] at this
     rw [this]
     simp
+
+/-! ## multiplicity -/
+
+/-- **value_reports_once**: thanks to `sorted(set(values))` and the sorted distinct field names, no diagnostic of the
+    MIME-Version, Content-Transfer-Encoding, Project-Id-Version, Report-Msgid-Bugs-To, Last-Translator, Language-Team stages and
+    no field-name diagnostic is emitted twice, whatever the multiplicity of the fields and values in the header -/
+theorem value_reports_once (x : Ext) (tmpl : Bool) (m : Meta) :
+    (mimeVersionTags m).Nodup ∧ (cteTags m).Nodup ∧ (checkProject x m).Nodup ∧ (checkTranslator x tmpl m).Nodup ∧
+    ((sortedSet (m.map (·.1))).flatMap (fieldNameTags x m)).Nodup :=
+  ⟨mimeVersionTags_nodup m, cteTags_nodup m, checkProject_nodup x m, checkTranslator_nodup x tmpl m, nameTags_nodup x m⟩
 
 /-! ## a header that follows every convention -/
 
